@@ -39,9 +39,9 @@ class VerificationKeyWitness(ArrayCBORSerializable):
         # key hash of the input address we are trying to spend.
         if isinstance(self.vkey, ExtendedVerificationKey):
             self.vkey = self.vkey.to_non_extended()
-        elif isinstance(self.vkey, VerificationKey) and type(self.vkey) is not VerificationKey:
+        elif isinstance(self.vkey, VerificationKey):
             # Only the 32 key bytes are on the wire: a witness holds the plain key (what decoding returns), whatever
-            # role-specific class (payment, stake, pool ...) the key was handed over as
+            # role-specific class or envelope (payment, stake, pool ...) the key was handed over with
             self.vkey = VerificationKey(self.vkey.payload)
 
     @classmethod
